@@ -255,7 +255,12 @@ class Engine:
         except BaseException as e:
             rec.enter_error = canon(e)
             rec.dead = True
+            if rec.spec.get("expect_refusal"):
+                self.sim.reach("activation_refused")
+                return "refused"
             return ["enter-error", canon(e)]
+        if rec.spec.get("expect_refusal"):
+            self.violate("C05.refused_activation", {"probe": rec.id, "sel": rec.strs, "accepted": True})
         rec.active = True
         rec.entered = True
         rec.changes.append(self.opi)
